@@ -328,6 +328,43 @@ def scripts(tier, seed, scale=1):
                                 out.append(("fail:%s:%s:%s:%s:%d:%d" % (k.name, n, op, h, fl, with_pre),
                                             new + (pre if with_pre else []) + ["y fail %d" % fl, "y %s 0 %s %s" % (op, nm(n), h),
                                                                                 "y get 0 %s" % nm(n), "y dump 0", "y %s 0 %s %s" % (op, nm(n), hx("again")), "y dump 0"]))
+        # the property given as identifier with a text value (mpt_object_set_property, the way configuration nodes reach
+        # the objects): the same as a set by name
+        for names, act in k.sets:
+            for n, _ci in names:
+                for v in values_for(act)[:5]:
+                    try:
+                        h = hx(v)
+                    except UnicodeEncodeError:
+                        continue
+                    if "00" in [h[i:i + 2] for i in range(0, len(h), 2)]:
+                        continue
+                    out.append(("setp:%s:%s:%s" % (k.name, n, h[:24]), new + pre + ["y setp 0 %s %s" % (nm(n), h), "y get 0 %s" % nm(n), "y dump 0"]))
+        # all four line attributes at once (mpt_lattr_set): each at, above and far above its limit, -1 = default
+        if k.name in ("line", "world"):
+            lim = {"width": 10, "style": 5, "symbol": 8, "size": 20}
+            order = ["width", "style", "symbol", "size"]
+            base = [2, 3, 4, 5]
+            for i, a in enumerate(order):
+                for v in (-1, 0, lim[a] - 1, lim[a], lim[a] + 1, 255, 256, 300):
+                    vals = list(base)
+                    vals[i] = v
+                    for with_pre in (True, False):
+                        out.append(("lattr:%s:%s:%d:%d" % (k.name, a, v, with_pre),
+                                    new + (pre if with_pre else []) + ["y lattr 0 %d %d %d %d" % tuple(vals), "y dump 0"]))
+            out.append(("lattr:%s:max" % k.name, new + pre + ["y lattr 0 10 5 8 20", "y dump 0", "y lattr 0 -1 -1 -1 -1", "y dump 0", "y lattr 0 11 6 9 21", "y dump 0"]))
+        # no property name (NULL): assignment by the type of the value — no value, a text, a sibling, another kind
+        for v in ("null", "nullstr", "-", hx(" "), hx("abc"), hx("0"), hx("#102030"), hx("1 2 3 4")):
+            out.append(("auto:%s:%s" % (k.name, v), new + pre + ["y auto 0 %s" % v, "y dump 0", "y auto 0 %s" % v, "y dump 0"]))
+            out.append(("auto0:%s:%s" % (k.name, v), new + ["y auto 0 %s" % v, "y dump 0"]))
+        for what in ("colour", "lattr"):
+            out.append(("autonone:%s:%s" % (k.name, what), new + pre + ["y autonone 0 %s" % what, "y dump 0"]))
+        if k.name != "line":
+            out.append(("autocopy:%s" % k.name, new + pre + ["y new " + k.name, "y autocopy 1 0", "y dump 1", "y autocopy 1 1", "y autocopy 0 1",
+                                                            "y set 0 %s %s" % (nm(listed[0]), hx("1")), "y dump 1", "y dump 0"]))
+            for k2 in kinds:
+                if k2.name != k.name:
+                    out.append(("xautocopy:%s:%s" % (k.name, k2.name), new + pre + ["y new " + k2.name, "y autocopy 0 1", "y dump 0"]))
         # copy while a strdup fails: equal properties or refused without change
         for fl in (1, 2, 3):
             out.append(("copyfail:%s:%d" % (k.name, fl), new + pre + ["y new " + k.name, "y set 1 %s %s" % (nm(listed[0]), hx("1")), "y fail %d" % fl,
